@@ -64,6 +64,19 @@ func forcedCases(thorough bool) []*Case {
 		}
 		add(prim, "arrival-order-8", 8, 1, st...)
 	}
+	if thorough {
+		// long wait: a parked waiter that has waited longer than any plausible internal timeout must
+		// still be served before a later arrival (real time: ≈ 6 s per scenario, thorough / search only)
+		for _, prim := range []string{"fifomutex", "fifomap"} {
+			// B parks, C parks 2.5 s later, the release comes when B has waited 5.6 s and C 3.1 s: a waiter
+			// that re-queues itself after a 5 s internal timeout would now stand behind C
+			add(prim, "long-wait", 3, 1, lk(0, 0, "w", false), lk(1, 0, "w", false), Step{Do: "sleep", Ms: 2500},
+				lk(2, 0, "w", false), Step{Do: "sleep", Ms: 3100}, ul(0, false, false), ul(1, false, false), ul(2, false, false))
+			// and the plain variant: B alone waits 5.6 s, then C arrives, then the release
+			add(prim, "long-wait-then-arrival", 3, 1, lk(0, 0, "w", false), lk(1, 0, "w", false), Step{Do: "sleep", Ms: 5600},
+				lk(2, 0, "w", false), ul(0, false, false), ul(1, false, false), ul(2, false, false))
+		}
+	}
 	// --- fifo.Map: context switch between the map section and the item mutex operation ---
 	// Lock parked after counting itself: a later caller overtakes it at the channel (arrival order
 	// is the order at the channel), the entry must not disappear meanwhile.
